@@ -154,6 +154,29 @@ KOTLIN_SCALARS = {
 }
 
 
+HELPER_SIZE_EXPR = {8: "1", 16: "2", 32: "4", 64: "8", "size": "Native.SIZE_T_SIZE"}
+
+
+def helper_widths(rep, outdir):
+    """every FFI* helper of KOTLIN_SCALARS must be a com.sun.jna.IntegerType of the width this table assumes (usize / isize:
+    Native.SIZE_T_SIZE - a C long is narrower than isize on LLP64 targets)"""
+    txt = ""
+    for root, _, fs in os.walk(outdir):
+        for f in fs:
+            if f.endswith(".kt"):
+                txt += open(os.path.join(root, f)).read()
+    found = {m.group(1): m.group(2).strip() for m in re.finditer(r"class (FFI\w+)\([^)]*\)\s*:\s*com\.sun\.jna\.IntegerType\(([^,]+),", txt)}
+    for name, desc in sorted(KOTLIN_SCALARS.items()):
+        if not name.startswith("FFI"):
+            continue
+        if name not in found:
+            raise Undecided("kotlin: helper class %s not found in the generated support file" % name)
+        want = HELPER_SIZE_EXPR[desc[1]]
+        if found[name] != want:
+            rep.violation("C07|kotlin|helper-width|%s" % name, {"helper": name, "declared_size": found[name], "expected_size": want},
+                          "Kotlin helper %s is declared as IntegerType(%s, ..); the C ABI type it stands for needs %s" % (name, found[name], want))
+
+
 class KotlinModel:
     def __init__(self, outdir):
         self.classes = {}
@@ -278,6 +301,9 @@ def run(tier):
             raise MachineryError("%s backend failed on the ffix crate: %s" % (backend, p.stderr[-2500:]))
         try:
             model = Model(out)
+            if backend == "kotlin":
+                # the integer helper classes get their native width from the support file, not from the declarations using them
+                helper_widths(rep, out)
             judged = absent = 0
             for m in b["methods"]:
                 sym = "%s_%s" % (m["owner"], m["name"])
